@@ -171,6 +171,11 @@ fn b_in_range(d: i128) -> bool {
 }
 
 fn c15_one(b: &mut Batch, words: &mut Words, src: u64, jit: u64, fake: u64, boolean: Option<bool>, salt: u64) {
+    // entry and trampoline are user-space addresses (a generator that subtracts pages from a very low entry
+    // wraps below zero: such a pair does not exist)
+    if jit >> 47 != 0 || src >> 47 != 0 || jit == 0 {
+        return;
+    }
     let d = jit as i128 - src as i128;
     if MACOS {
         // the macOS long form reaches +-4 GiB by page: pairs whose page difference does not fit the
